@@ -7,7 +7,8 @@ the class of the evaluation result (a true / false `BoolType`, another truthy / 
 `process_json_doc`) and the returned status.  The tables are emitted as Lean data and `Cel.Bridge.Cli` proves them equal to the
 tables computed from the model (`Cel.Cli.processJsonDoc`, `nullInput`, `main`) by `decide`.  Control-flow rewrites that keep the
 behaviour (early return vs. else chain, conditional expression vs. if/else, split / merged isinstance tests, renamed or hoisted
-locals, reordered `except` clauses, inverted conditions, helper functions extracted at module level) give the same tables; a
+locals, reordered `except` clauses, inverted conditions, helper functions extracted at module level, a call through
+`functools.partial`) give the same tables; a
 rewrite that changes a status, drops or adds a display, or reorders effects gives different ones.
 
 The NDJSON loop is not unrolled: the loop body is run once for every (carried status, document status) pair with every other
@@ -67,6 +68,30 @@ class Func:
         self.node, self.env = node, env
 
 
+class Partial:
+    """`functools.partial(f, *args, **kw)`: calling it calls `f(*args, *more, **{**kw, **more_kw})` (arguments were evaluated when it was built)"""
+    def __init__(self, f: Any, args: List[Any], kw: Dict[str, Any]):
+        self.f, self.args, self.kw = f, list(args), dict(kw)
+
+    def __repr__(self):
+        return f"Partial({self.f!r}, {len(self.args)} args, {sorted(self.kw)})"
+
+
+def partial_names(module: ast.Module) -> set:
+    """the dotted names under which this module can reach `functools.partial` (module-level imports only)"""
+    out = set()
+    for st in module.body:
+        if isinstance(st, ast.Import):
+            for a in st.names:
+                if a.name == "functools":
+                    out.add((a.asname or "functools") + ".partial")
+        if isinstance(st, ast.ImportFrom) and st.module == "functools" and not st.level:
+            for a in st.names:
+                if a.name == "partial":
+                    out.add(a.asname or "partial")
+    return out
+
+
 class PyRaise(Exception):
     def __init__(self, cls: str):
         self.cls = cls
@@ -123,6 +148,7 @@ class Interp:
         self.depth = 0
         self.loop: Optional[Dict[str, Any]] = None          # filled by the stdin loop
         self.funcs = {n.name: n for n in module.body if isinstance(n, ast.FunctionDef)}
+        self.partial_names = partial_names(module)
 
     # ---- values ------------------------------------------------------------------------------------
     def truth(self, v: Any, what: str) -> bool:
@@ -130,7 +156,7 @@ class Interp:
             return v.cls in ("celTrue", "otherT")
         if isinstance(v, CONCRETE):
             return bool(v)
-        if isinstance(v, Func):
+        if isinstance(v, (Func, Partial)):
             return True
         raise TranslationError(f"decision on a value the interpreter cannot determine ({what}: {v!r})")
 
@@ -319,11 +345,26 @@ class Interp:
         else:
             args = [self.ev(a, env) for a in node.args]
             kw = {k.arg: self.ev(k.value, env) for k in node.keywords}
+        return self.invoke(f, args, kw, text, as_stmt)
+
+    def invoke(self, f: Any, args: List[Any], kw: Dict[str, Any], text: str, as_stmt: bool) -> Any:
+        """call of the evaluated callable `f` on evaluated arguments"""
+        if isinstance(f, Partial):
+            # functools.partial: stored positionals first, call-time keywords override the stored ones
+            if any(isinstance(a, Opaque) and a.why == "*" for a in f.args + list(args)):
+                args2, kw2 = [Opaque("*")], {}
+            else:
+                args2, kw2 = f.args + list(args), dict(f.kw, **kw)
+            return self.invoke(f.f, args2, kw2, text, as_stmt)
         # method calls on known objects
         if isinstance(f, Sym):
             n = f.name
             if n.startswith("logger.") or n.startswith("logging."):
                 return Opaque("logging")
+            if n in self.partial_names:
+                if not args or not isinstance(args[0], (Func, Partial, Sym)):
+                    return Opaque("partial of " + (repr(args[0]) if args else "nothing"))
+                return Partial(args[0], args[1:], kw)
             if n == "isinstance" and len(args) == 2 and not kw:
                 return self.isinstance_(args[0], args[1], text)
             if n in ("max", "min") and not kw and len(args) >= 2 and all(type(a) is int for a in args):
